@@ -144,6 +144,27 @@ func modelFor(o *Outcome, items int) (Decision, bool) {
 				m[k][it] = c
 			}
 		}
+	} else if len(o.Calls) == 0 && o.Returned {
+		// No runner was called through the registry seam: the round functions
+		// have been rewired to call the tests directly. The scripted results
+		// never reached the workflow, so the model is fed with what the tests
+		// really return on the stream's samples (affordable for the 20 000-bit
+		// workflows only; otherwise the decision is unobservable, not wrong).
+		if wi.SampleBytes > 2500 || o.Stream == nil || o.Stream.Len() < 0 {
+			return Decision{}, false
+		}
+		m = make([][]Cell, wi.Samples)
+		for k := 0; k < wi.Samples; k++ {
+			m[k] = make([]Cell, 15)
+			data := o.Stream.Slice(int64(k)*int64(wi.SampleBytes), wi.SampleBytes)
+			if data == nil {
+				return Decision{}, false
+			}
+			for it := 0; it < items; it++ {
+				r := origRunners[it](append([]byte(nil), data...))
+				m[k][it] = Cell{P: r.P, Q: r.Q, P2: r.P2, Q2: r.Q2, Pass: r.Pass}
+			}
+		}
 	} else {
 		m = o.Matrix
 		if m == nil {
